@@ -42,6 +42,8 @@ RULE = (
     "{flops,size,write,max,combo[-k],limit[-k], k in 1,2,64,256} x search_outer x cost_cap in "
     "{2, optimum, optimum-1, 10^6} x entry point {optimize_optimal (use_ssa, simplify both ways), "
     "OptimalOptimizer call/ssa_path/search/kwargs, array_contract_path(optimizer | 'optimal' preset)}.  "
+    "Every call runs under a logical progress bound (sys.monitoring LINE event on the cost-cap doubling of "
+    "optimize_optimal_connected: more than log2(optimum/cap)+1+20 doublings per component = kind no_return).  "
     "Exhaustive per input, sampling over inputs.  case = one network; distinct = distinct networks; "
     "non-trivial = n >= 4 and the tree enumeration has >= 2 distinct total-flops values"
 )
@@ -69,6 +71,84 @@ VALUE_NAMES = ("flops", "size", "write", "max") + tuple(f"combo-{k}" for k in KS
 VALUE_POS = {name: j for j, name in enumerate(VALUE_NAMES)}
 ENTRIES = ("fn", "fn", "fn", "opt_call", "opt_ssa", "opt_search", "opt_kwargs", "acp_opt")
 CALL_LIMIT = 60  # seconds; a firing limit is inconclusive, never a verdict
+
+
+# --------------------------------------------------------------------------- #
+#        logical progress bound on the cost-cap loop (no wall clock)          #
+# --------------------------------------------------------------------------- #
+# optimize_optimal_connected repeats a full bottom-up pass, doubling `cost_cap` after each one that
+# did not produce the complete contraction (`cost_cap *= 2`).  Every sub-tree of the optimal tree
+# scores at most the optimum, so a pass whose cap is >= the optimum MUST complete; the number of
+# doublings in one call is therefore bounded by log2(optimum / initial cap) + 1.  The monitor counts
+# executions of that statement with a sys.monitoring LINE event local to that one code object and
+# raises NoProgress *into* the search once the count exceeds a generous bound (20 doublings, a factor
+# 10^6, beyond the optimum, per connected component): a finder that no longer returns is then a
+# definite verdict (kind=no_return) decided on logical steps, not on the watchdog.
+
+import math
+import sys
+
+
+class NoProgress(Exception):
+    pass
+
+
+class CapLoopMonitor:
+    TOOL = 4
+    SLACK = 20
+
+    def __init__(self):
+        self.available = False
+        self.count = 0
+        self.limit = None
+        mon = getattr(sys, "monitoring", None)
+        if mon is None:
+            return
+        try:
+            import inspect
+
+            from cotengra.pathfinders.path_basic import ContractionProcessor
+
+            fn = ContractionProcessor.optimize_optimal_connected
+            lines, first = inspect.getsourcelines(fn)
+            hits = [first + j for j, l in enumerate(lines) if l.strip().replace(" ", "").startswith("cost_cap*=")]
+            if len(hits) != 1:
+                return
+            self.code, self.line = fn.__code__, hits[0]
+            mon.use_tool_id(self.TOOL, "vf-c09-caploop")
+            mon.register_callback(self.TOOL, mon.events.LINE, self._on_line)
+            mon.set_local_events(self.TOOL, self.code, mon.events.LINE)
+            self.available = True
+        except Exception:
+            self.available = False
+
+    def _on_line(self, code, line):
+        if code is not self.code or line != self.line:
+            return sys.monitoring.DISABLE
+        self.count += 1
+        if self.limit is not None and self.count > self.limit:
+            lim, self.limit = self.limit, None
+            raise NoProgress(f"the cost-cap loop doubled its cap {self.count} times (bound {lim}) without completing")
+
+    def arm(self, opt_value, cap0, ncomponents):
+        self.count = 0
+        need = max(0.0, math.log2(max(float(opt_value), 2.0) / max(float(cap0), 1.0)))
+        # 4x the doublings needed (a growth factor as small as 2**0.25 per pass stays inside) plus the slack
+        self.limit = int(ncomponents * (4 * math.ceil(need) + 1 + 2 * self.SLACK))
+
+    def disarm(self):
+        self.limit = None
+        return self.count
+
+
+_CAPMON = None
+
+
+def capmon():
+    global _CAPMON
+    if _CAPMON is None:
+        _CAPMON = CapLoopMonitor()
+    return _CAPMON
 
 
 def nshards(tier):
@@ -505,12 +585,26 @@ def compare(rep, net, orc, cfg):
         f"{net.eq()} sizes={net.size_dict} minimize={cfg['minimize']} search_outer={outer} "
         f"cost_cap={cfg['cost_cap']} entry={cfg['entry']} use_ssa={cfg.get('use_ssa')} simplify={cfg.get('simplify', True)}"
     )
+    cm = capmon()
+    if cm.available:
+        cm.arm(opt, cfg["cost_cap"], net.N)
+    else:
+        rep.count("progress_monitor", "unavailable")
     try:
-        with time_limit(CALL_LIMIT):
-            form, got = call_entry(net, cfg)
+        try:
+            with time_limit(CALL_LIMIT):
+                form, got = call_entry(net, cfg)
+        finally:
+            passes = cm.disarm() if cm.available else 0
+        if cm.available:
+            rep.mon("cap_loop_bounded")
+            rep.count("cap_loop_doublings", str(min(passes, 40)))
     except OpTimeout as e:
         rep.inconclusive_case(f"{desc}: {e}")
         return None
+    except NoProgress as e:
+        wit["returned_path"] = None
+        return ("no_return", wit, f"{desc}: {e} (optimum {opt}; a pass whose cap is >= the optimum must complete)")
     except Exception as e:
         wit["returned_path"] = None
         return ("raises", wit, f"{desc}: {type(e).__name__}: {e} | {traceback.format_exc()[-500:]}")
